@@ -1024,6 +1024,8 @@ def b_round(I, v, nd=None):
 
 
 def b_iter(I, o):
+    if hasattr(o, "tpv_sym_iter"):
+        return o  # a symbolic family: consumed by a for-loop under contract
     return list(I.iterate(o))
 
 
